@@ -80,11 +80,13 @@ def minimise(desc, cls, still_fails, budget=80, wall_s=60.0):
             attempt("fitness_error->None", lambda d: d["config"].__setitem__("fitness_error", None))
         base = scenario.base_configs().get(cur.get("optimizer"), {}).get("params", {})
         for k in list(cur.get("perturbed") or []):
-            if k in base:
-                def reset(d, k=k):
+            def reset(d, k=k):
+                if k in base:
                     d["config"][k] = copy.deepcopy(base[k])
-                    d["perturbed"] = [x for x in d["perturbed"] if x != k]
-                attempt(f"{k}->base", reset)
+                else:
+                    d["config"].pop(k, None)
+                d["perturbed"] = [x for x in d["perturbed"] if x != k]
+            attempt(f"{k}->base", reset)
         if base and cfg.get("population_size") != base.get("population_size"):
             attempt("population_size->base",
                     lambda d: d["config"].__setitem__("population_size", base["population_size"]))
